@@ -80,14 +80,13 @@ def build(sc, seed):
                 c.append(x)
             centres.append(np.array(c))
         periods = [shape[a] * spac[a] if per[a] else None for a in range(dim)]
-    elif fam == "polar":
-        grid = PolarSymGrid(28 * dx, 56)
-        centres, periods = [np.zeros(2)], [None, None]
-        R = R * 1.6
-    elif fam == "spherical":
-        grid = SphericalSymGrid(28 * dx, 56)
-        centres, periods = [np.zeros(3)], [None] * 3
-        R = R * 1.6
+    elif fam in ("polar", "spherical"):
+        # a disc / ball, or (every other seed) an annulus / shell whose hole lies well inside the droplet
+        r_in = 0.0 if (seed // 6) % 2 == 0 else 4.5 * dx
+        R = R * 1.6 + r_in
+        cls_g = PolarSymGrid if fam == "polar" else SphericalSymGrid
+        grid = cls_g((r_in, r_in + 28 * dx) if r_in else 28 * dx, 56)
+        centres, periods = [np.zeros(2 if fam == "polar" else 3)], [None] * (2 if fam == "polar" else 3)
     else:
         pz = sc["per"] == "first"
         grid = CylindricalSymGrid(14 * dx, [2.0 * dx, 42.0 * dx], [28, 80], periodic_z=pz)
